@@ -5,7 +5,9 @@ patch="$1"; shift
 cd /repo || exit 2
 if ! git apply --check "$patch" 2>/dev/null; then echo "PATCH DOES NOT APPLY: $patch"; exit 2; fi
 git apply "$patch"
-trap 'git -C /repo checkout -- . >/dev/null 2>&1; cd /verif && python3 -c "from vlib import core; core.ensure_harness(); core.ensure_repo_bins()" >/dev/null 2>&1' EXIT INT TERM
+# the evidence files describe the unchanged tree: keep them aside while a change is applied
+rm -rf /verif/.cache/evidence_keep && cp -r /verif/evidence /verif/.cache/evidence_keep
+trap 'rm -rf /verif/evidence && mv /verif/.cache/evidence_keep /verif/evidence; git -C /repo checkout -- . >/dev/null 2>&1; cd /verif && python3 -c "from vlib import core; core.ensure_harness(); core.ensure_repo_bins()" >/dev/null 2>&1' EXIT INT TERM
 cd /verif
 for p in "$@"; do
   out=$(./check "$p" 2>&1); rc=$?
